@@ -58,10 +58,17 @@ mod harnesses {
 
     /// Proof::from_bytes: all 1008-byte strings.
     #[kani::proof]
-    #[kani::unwind(4)]
+    #[kani::unwind(1010)]
     fn proof_from_bytes() {
         let bytes: [u8; Proof::SIZE] = kani::any();
         let r = Proof::from_bytes(&bytes);
+        // canonicity (C16): whatever the decoder accepts re-encodes to the same 1008 bytes.  The
+        // component codecs of the dependency are exact under the contract bodies (scalars: the real
+        // canonicity comparison; points: accepted only on their canonical encoding), so a failure
+        // here is an acceptance added by the proof / commitment / evaluation decoders themselves.
+        if let Ok(p) = &r {
+            assert!(p.to_bytes() == bytes);
+        }
         kani::cover!(r.is_err());
         kani::cover!(r.is_ok());
     }
